@@ -143,6 +143,9 @@ impl SemanticState {
 
         for definition in &module.definitions {
             let new_path = path.join(definition.name.as_str().into());
+            if self.type_registry.get(&new_path).is_some() {
+                anyhow::bail!("`{new_path}` is defined more than once");
+            }
             self.add_item(ItemDefinition {
                 visibility: definition.visibility.into(),
                 path: new_path,
@@ -189,6 +192,9 @@ impl SemanticState {
             }
 
             let extern_path = path.join(extern_path.as_str().into());
+            if self.type_registry.get(&extern_path).is_some() {
+                anyhow::bail!("`{extern_path}` is defined more than once");
+            }
 
             self.add_item(ItemDefinition {
                 visibility: Visibility::Public,
